@@ -2,7 +2,7 @@
 import ast
 
 from ..cfg import cfg_of
-from ..exprs import dotted
+from ..exprs import dotted, walk_no_nested
 from ..agree import _depends
 from ..sampler_rules import rule_L5
 from ..effects import purity
@@ -33,8 +33,13 @@ def run(ctx):
     ctx.require(reps, 'Sampler.posterior: resampling by np.repeat not found')
     sel = reps[0].ast.value.args[1]
     nid = reps[0].id
+    wname = None
+    for r_ in walk_no_nested(f.node):
+        if isinstance(r_, ast.Return) and isinstance(r_.value, ast.Tuple) and \
+                len(r_.value.elts) >= 2 and isinstance(r_.value.elts[1], ast.Name):
+            wname = r_.value.elts[1].id
     deps = {
-        'weights': lambda e: isinstance(e, ast.Name) and e.id == 'log_w',
+        'weights': lambda e: isinstance(e, ast.Name) and e.id == wname,
         'boost': lambda e: isinstance(e, ast.Name) and e.id == 'equal_weight_boost',
         'floor': lambda e: isinstance(e, ast.Call) and dotted(e.func) == 'np.floor',
         'uniform-draw': lambda e: isinstance(e, ast.Call) and dotted(e.func) ==
